@@ -1,9 +1,520 @@
-//! C07 — not implemented yet.
-use crate::util::{Args, Out};
-use serde_json::{Value, json};
+//! C07 — hot swap after an edit preserves the state of untouched signal paths.
+//!
+//! `dsp` returns one channel per voice. Voices come from a template library whose
+//! state shapes are pairwise unmatchable (no two templates share a leaf at the same
+//! nesting level), each template used at most once, so the expected continuation of
+//! every channel is unambiguous. Each template has an independent Rust model.
 
-pub fn meta(_args: &Args) -> Value {
-    json!({"level": "exploration", "rule": "not implemented", "floor": {"quick": 1000000, "thorough": 1000000}})
+use super::{drive, replay_one};
+use crate::run::{Backend, BuildError, Session};
+use crate::util::{Args, Out, Rng, bits_eq, f64s_to_json};
+use serde::{Deserialize, Serialize};
+use serde_json::{Value, json};
+use std::collections::VecDeque;
+
+pub const NT: usize = 7;
+/// templates 0..NT_SAFE have pairwise unmatchable shapes; template 6 (Feed(1), Mem) partially matches 0 and 1
+pub const NT_SAFE: usize = 6;
+
+/// mimium definitions of the voice templates (index = template id)
+const DEFS: [&str; NT] = [
+    "fn va(c){ self + c }",
+    "fn vb(c){ mem(now * c) }",
+    "fn vc(c){ delay(3.0, now * c, 2.0) }",
+    "fn vd(c){ delay(5.0, now + c, 4.0) }",
+    "fn ve0(c)->(float,float){ let (a,b) = self\n  (a + c, b + 1.0) }\nfn ve(c){ let (a,b) = ve0(c)\n  a + b }",
+    "fn vf1(c){ mem(c + now) }\nfn vf2(c){ delay(3.0, c * now, 1.0) }\nfn vf3(c){ vf1(c) }\nfn vf4(c){ vf2(c) }\nfn vf(c){ vf3(c) + vf4(c) }",
+    "fn vg(c){ mem(self + c) }",
+];
+const NAMES: [&str; NT] = ["va", "vb", "vc", "vd", "ve", "vf", "vg"];
+/// wrapped one call deeper (a different state shape)
+const WRAP_DEFS: [&str; NT] = [
+    "fn wva(c){ va(c) }",
+    "fn wvb(c){ vb(c) }",
+    "fn wvc(c){ vc(c) }",
+    "fn wvd(c){ vd(c) }",
+    "fn wve(c){ ve(c) }",
+    "fn wvf(c){ vf(c) }",
+    "fn wvg(c){ vg(c) }",
+];
+
+#[derive(Clone, Debug, PartialEq, Serialize, Deserialize)]
+pub struct Voice {
+    pub t: usize,
+    pub c: f64,
+    pub wrapped: bool,
 }
-pub fn run(_args: &Args, _out: &mut Out) {}
-pub fn replay(_args: &Args, _out: &mut Out, _case: &Value) {}
+
+/// Rust models of the templates.
+#[derive(Clone, Debug)]
+enum Model {
+    A { s: f64 },
+    B { prev: f64 },
+    C { hist: VecDeque<f64> },
+    D { hist: VecDeque<f64> },
+    E { a: f64, b: f64 },
+    F { prev: f64, hist: VecDeque<f64> },
+    G { self_prev: f64, mem_prev: f64 },
+}
+impl Model {
+    fn fresh(t: usize) -> Model {
+        match t {
+            0 => Model::A { s: 0.0 },
+            1 => Model::B { prev: 0.0 },
+            2 => Model::C { hist: VecDeque::new() },
+            3 => Model::D { hist: VecDeque::new() },
+            4 => Model::E { a: 0.0, b: 0.0 },
+            5 => Model::F { prev: 0.0, hist: VecDeque::new() },
+            _ => Model::G { self_prev: 0.0, mem_prev: 0.0 },
+        }
+    }
+    fn step(&mut self, now: f64, c: f64) -> f64 {
+        fn delay(h: &mut VecDeque<f64>, n: usize, x: f64, d: usize) -> f64 {
+            let r = h.get(d - 1).copied().unwrap_or(0.0);
+            h.push_front(x);
+            h.truncate(n);
+            r
+        }
+        match self {
+            Model::A { s } => {
+                *s += c;
+                *s
+            }
+            Model::B { prev } => std::mem::replace(prev, now * c),
+            Model::C { hist } => delay(hist, 3, now * c, 2),
+            Model::D { hist } => delay(hist, 5, now + c, 4),
+            Model::E { a, b } => {
+                *a += c;
+                *b += 1.0;
+                *a + *b
+            }
+            Model::F { prev, hist } => {
+                let x = std::mem::replace(prev, c + now);
+                x + delay(hist, 3, c * now, 1)
+            }
+            Model::G { self_prev, mem_prev } => {
+                let out = *mem_prev;
+                *mem_prev = *self_prev + c;
+                *self_prev = out;
+                out
+            }
+        }
+    }
+}
+
+#[derive(Clone, Debug, Serialize, Deserialize)]
+pub enum Edit {
+    /// swap in this voice list after `at` more samples
+    Swap { at: usize, voices: Vec<Voice> },
+    /// try to compile a broken text after `at` more samples (must change nothing)
+    Broken { at: usize, kind: u8 },
+}
+
+#[derive(Clone, Debug, Serialize, Deserialize)]
+pub struct Case {
+    pub initial: Vec<Voice>,
+    pub edits: Vec<Edit>,
+    pub tail: usize,
+    /// pad the output tuple to a constant channel count (None: as the quarantine list says)
+    #[serde(default)]
+    pub pad: Option<bool>,
+}
+
+pub fn source(voices: &[Voice]) -> String {
+    source_padded(voices, PAD.with(|p| p.get()))
+}
+
+thread_local! {
+    /// pad dsp's output tuple with constant channels up to NT (see quarantine `wasm-swap-changes-channel-count`)
+    static PAD: std::cell::Cell<bool> = const { std::cell::Cell::new(false) };
+}
+
+pub fn source_padded(voices: &[Voice], pad: bool) -> String {
+    let mut s = String::new();
+    for d in DEFS {
+        s.push_str(d);
+        s.push('\n');
+    }
+    for v in voices {
+        if v.wrapped {
+            s.push_str(WRAP_DEFS[v.t]);
+            s.push('\n');
+        }
+    }
+    let mut calls: Vec<String> = voices
+        .iter()
+        .map(|v| format!("{}{}({})", if v.wrapped { "w" } else { "" }, NAMES[v.t], crate::gens::core::fmt_num(v.c, false)))
+        .collect();
+    if pad {
+        while calls.len() < NT {
+            calls.push("0.0".into());
+        }
+    }
+    if calls.len() == 1 {
+        s.push_str(&format!("fn dsp(){{\n  {}\n}}\n", calls[0]));
+    } else {
+        s.push_str(&format!("fn dsp(){{\n  ({})\n}}\n", calls.join(", ")));
+    }
+    s
+}
+
+pub struct Checked {
+    pub violations: Vec<(String, String)>,
+    pub swaps: u64,
+    pub failed_compiles: u64,
+    pub channel_samples_checked: u64,
+    pub ran: bool,
+    pub model_mismatch: Option<String>,
+    pub edit_kinds: Vec<&'static str>,
+}
+
+pub fn check(c: &Case) -> Checked {
+    let mut res = Checked {
+        violations: vec![],
+        swaps: 0,
+        failed_compiles: 0,
+        channel_samples_checked: 0,
+        ran: false,
+        model_mismatch: None,
+        edit_kinds: vec![],
+    };
+    for b in [Backend::Vm, Backend::Wasm] {
+        let src0 = source(&c.initial);
+        let mut s = match Session::build(b, &src0, false, None) {
+            Ok(s) => s,
+            Err(e) => {
+                res.model_mismatch = Some(format!("initial program does not build on {}: {}", b.name(), e.short()));
+                return res;
+            }
+        };
+        let mut cur: Vec<Voice> = c.initial.clone();
+        let mut models: Vec<Model> = cur.iter().map(|v| Model::fresh(v.t)).collect();
+        let mut t: usize = 0;
+        let mut swapped = false;
+        let mut segments: Vec<(usize, Option<&Edit>)> = c.edits.iter().map(|e| (match e { Edit::Swap { at, .. } | Edit::Broken { at, .. } => *at }, Some(e))).collect();
+        segments.push((c.tail, None));
+        'run: for (len, edit) in segments {
+            for _ in 0..len {
+                let out = match s.step(&[]) {
+                    Ok(o) => o.out,
+                    Err(p) => {
+                        res.violations.push((format!("{}/dsp/{}", p.sig(), b.name()), format!("sample {t}: {} @ {}", p.msg, p.loc)));
+                        break 'run;
+                    }
+                };
+                let expect_ch = if PAD.with(|p| p.get()) { NT } else { cur.len() };
+                if out.len() != expect_ch {
+                    res.violations.push((
+                        format!("channel-count-after-swap/{}", b.name()),
+                        format!("sample {t}: {} channels, program has {} voices", out.len(), cur.len()),
+                    ));
+                    break 'run;
+                }
+                for (ch, v) in cur.iter().enumerate() {
+                    let want = models[ch].step(t as f64, v.c);
+                    res.channel_samples_checked += 1;
+                    if !bits_eq(want, out[ch]) {
+                        if !swapped {
+                            res.model_mismatch = Some(format!(
+                                "{}: uninterrupted sample {t} voice {:?}: runtime {:?} model {:?}",
+                                b.name(), v, out[ch], want
+                            ));
+                            return res;
+                        }
+                        res.violations.push((
+                            format!("channel-differs-from-expected-continuation/{}", b.name()),
+                            format!(
+                                "sample {t} channel {ch} (voice {}{} c={}): runtime {} expected {}; voices now {:?}; history {:?}",
+                                if v.wrapped { "wrapped " } else { "" }, NAMES[v.t], v.c,
+                                f64s_to_json(&[out[ch]]), f64s_to_json(&[want]), cur, c.edits
+                            ),
+                        ));
+                        break 'run;
+                    }
+                }
+                t += 1;
+            }
+            res.ran = true;
+            match edit {
+                None => {}
+                Some(Edit::Broken { kind, .. }) => {
+                    let good = source(&cur);
+                    let bad = match kind % 4 {
+                        0 => good.replacen("fn dsp(){", "fn dsp(){ let = ", 1),
+                        1 => good.replacen("fn dsp(){", "fn dsp(){ let zz = undefined_name\n", 1),
+                        2 => format!("{good}\nfn extra(x:float)->string {{ x }}\nfn dsp2(){{ extra(1.0) + 1.0 }}\n").replacen("fn dsp(){", "fn dsp(){ let q = extra(1.0) + 1.0\n", 1),
+                        _ => good.replace(')', ""),
+                    };
+                    res.edit_kinds.push("compile-error");
+                    match s.hot_swap(&bad) {
+                        Err(BuildError::Rejected(_)) => res.failed_compiles += 1,
+                        Err(BuildError::Panicked(ph, p)) => {
+                            res.violations.push((format!("{}/{ph}/{}", p.sig(), b.name()), format!("compiling a broken edit: {} @ {}", p.msg, p.loc)));
+                            break 'run;
+                        }
+                        Err(_) => res.failed_compiles += 1,
+                        Ok(_) => {
+                            // the "broken" text compiled after all: it is then a real swap of the same voices
+                            swapped = true;
+                        }
+                    }
+                }
+                Some(Edit::Swap { voices, .. }) => {
+                    let new_src = source(voices);
+                    match s.hot_swap(&new_src) {
+                        Ok(true) => {
+                            res.swaps += 1;
+                            swapped = true;
+                        }
+                        Ok(false) => {
+                            res.violations.push((format!("try-hot-swap-refused/{}", b.name()), format!("at sample {t}")));
+                            break 'run;
+                        }
+                        Err(BuildError::Panicked(ph, p)) => {
+                            res.violations.push((format!("{}/{ph}/{}", p.sig(), b.name()), format!("swap at sample {t}: {} @ {}", p.msg, p.loc)));
+                            break 'run;
+                        }
+                        Err(e) => {
+                            res.violations.push((format!("swap-preparation-failed/{}", b.name()), format!("at sample {t}: {}", e.short())));
+                            break 'run;
+                        }
+                    }
+                    // expected continuation: same template (and same wrapping) keeps its state, everything else starts from zero
+                    let mut new_models = vec![];
+                    for v in voices {
+                        match cur.iter().position(|o| o.t == v.t && o.wrapped == v.wrapped) {
+                            Some(i) => {
+                                new_models.push(models[i].clone());
+                                if (cur[i].c - v.c).abs() > 0.0 {
+                                    res.edit_kinds.push("constant-changed");
+                                } else {
+                                    res.edit_kinds.push("untouched");
+                                }
+                            }
+                            None => {
+                                new_models.push(Model::fresh(v.t));
+                                res.edit_kinds.push(if v.wrapped { "nested-deeper/new" } else { "inserted" });
+                            }
+                        }
+                    }
+                    if cur.iter().any(|o| !voices.iter().any(|v| v.t == o.t && v.wrapped == o.wrapped)) {
+                        res.edit_kinds.push("deleted");
+                    }
+                    cur = voices.clone();
+                    models = new_models;
+                }
+            }
+        }
+    }
+    res.violations.dedup_by(|a, b| a.0 == b.0);
+    res
+}
+
+fn exec_with(args: &Args) -> impl Fn(&Case, usize, &mut Out) -> bool + '_ {
+    move |c, idx, out| {
+        PAD.with(|p| p.set(c.pad.unwrap_or(args.q("wasm-swap-changes-channel-count"))));
+        exec(c, idx, out)
+    }
+}
+
+fn exec(c: &Case, idx: usize, out: &mut Out) -> bool {
+    let r = check(c);
+    if let Some(m) = &r.model_mismatch {
+        out.inconclusive(idx, &format!("voice model does not describe the uninterrupted run: {m}"));
+        return false;
+    }
+    out.count("swaps_performed", r.swaps);
+    out.count("failed_compiles_injected", r.failed_compiles);
+    out.count("channel_samples_checked", r.channel_samples_checked);
+    for k in &r.edit_kinds {
+        out.count(&format!("voice_fate:{k}"), 1);
+    }
+    let cj = serde_json::to_value(c).unwrap();
+    for (sig, detail) in &r.violations {
+        let key = format!("violations:{sig}");
+        let seen = out.counters.get(&key).copied().unwrap_or(0);
+        out.count(&key, 1);
+        if seen < 5 {
+            // minimise: drop edits / voices while the signature persists
+            let small = if seen == 0 { minimise(c, sig) } else { c.clone() };
+            let d = check(&small).violations.into_iter().find(|v| &v.0 == sig).map(|v| v.1).unwrap_or(detail.clone());
+            let mut small = small;
+            small.pad = Some(PAD.with(|p| p.get()));
+            let mut j = serde_json::to_value(&small).unwrap();
+            j["src_initial"] = Value::String(source(&small.initial));
+            out.violation(idx, sig, &d, &j);
+        }
+    }
+    let _ = cj;
+    r.ran && r.swaps > 0
+}
+
+fn minimise(c: &Case, sig: &str) -> Case {
+    let has = |x: &Case| check(x).violations.iter().any(|v| v.0 == sig);
+    let mut cur = c.clone();
+    loop {
+        let mut progressed = false;
+        // fewer edits
+        for i in 0..cur.edits.len() {
+            let mut t = cur.clone();
+            t.edits.remove(i);
+            if has(&t) {
+                cur = t;
+                progressed = true;
+                break;
+            }
+        }
+        if progressed {
+            continue;
+        }
+        // fewer voices everywhere (remove template k from all lists)
+        for k in 0..NT {
+            let mut t = cur.clone();
+            t.initial.retain(|v| v.t != k);
+            for e in t.edits.iter_mut() {
+                if let Edit::Swap { voices, .. } = e {
+                    voices.retain(|v| v.t != k);
+                }
+            }
+            let ok_lists = !t.initial.is_empty() && t.edits.iter().all(|e| !matches!(e, Edit::Swap { voices, .. } if voices.is_empty()));
+            if ok_lists && t.initial.len() < cur.initial.len().max(1) + 10 && serde_json::to_string(&t).unwrap() != serde_json::to_string(&cur).unwrap() && has(&t) {
+                cur = t;
+                progressed = true;
+                break;
+            }
+        }
+        if progressed {
+            continue;
+        }
+        // earlier swaps, shorter tail
+        for i in 0..cur.edits.len() {
+            let mut t = cur.clone();
+            match &mut t.edits[i] {
+                Edit::Swap { at, .. } | Edit::Broken { at, .. } if *at > 1 => *at /= 2,
+                _ => continue,
+            }
+            if has(&t) {
+                cur = t;
+                progressed = true;
+                break;
+            }
+        }
+        if !progressed && cur.tail > 2 {
+            let mut t = cur.clone();
+            t.tail /= 2;
+            if has(&t) {
+                cur = t;
+                progressed = true;
+            }
+        }
+        if !progressed {
+            return cur;
+        }
+    }
+}
+
+fn rand_const(rng: &mut Rng) -> f64 {
+    *rng.pick(&[0.5, 1.0, 2.0, 3.0, 0.25, 1.5, 7.0])
+}
+
+fn rand_voices(rng: &mut Rng, k: usize, pool: usize) -> Vec<Voice> {
+    let mut ts: Vec<usize> = (0..pool).collect();
+    rng.shuffle(&mut ts);
+    let mut chosen: Vec<usize> = ts[..k].to_vec();
+    chosen.sort(); // voices keep a canonical relative order: edits never reorder survivors
+    chosen.into_iter().map(|t| Voice { t, c: rand_const(rng), wrapped: false }).collect()
+}
+
+/// one random edit of a voice list (never reorders survivors, never duplicates a template)
+fn edit_voices(rng: &mut Rng, cur: &[Voice], pool: usize) -> Vec<Voice> {
+    let mut v: Vec<Voice> = cur.to_vec();
+    let absent: Vec<usize> = (0..pool).filter(|t| !v.iter().any(|x| x.t == *t)).collect();
+    for _ in 0..8 {
+        match rng.below(5) {
+            0 if !absent.is_empty() && v.len() < pool => {
+                // insert an absent template at its canonical position
+                let t = *rng.pick(&absent);
+                let pos = v.iter().position(|x| x.t > t).unwrap_or(v.len());
+                v.insert(pos, Voice { t, c: rand_const(rng), wrapped: false });
+                return v;
+            }
+            1 if v.len() > 1 => {
+                let i = rng.below(v.len());
+                v.remove(i);
+                return v;
+            }
+            2 if !absent.is_empty() => {
+                // replace: delete one, insert another template
+                let i = rng.below(v.len());
+                v.remove(i);
+                let t = *rng.pick(&absent);
+                let pos = v.iter().position(|x| x.t > t).unwrap_or(v.len());
+                v.insert(pos, Voice { t, c: rand_const(rng), wrapped: false });
+                return v;
+            }
+            3 => {
+                let i = rng.below(v.len());
+                v[i].wrapped = !v[i].wrapped;
+                return v;
+            }
+            4 => {
+                let i = rng.below(v.len());
+                let c0 = v[i].c;
+                v[i].c = rand_const(rng);
+                if v[i].c != c0 {
+                    return v;
+                }
+            }
+            _ => {}
+        }
+    }
+    v
+}
+
+fn gen_case(args: &Args, idx: usize, rng: &mut Rng) -> Case {
+    let pool = if args.q("displaced-survivor-shapes") { NT_SAFE } else { NT };
+    let k = 1 + rng.below(pool.min(5));
+    let initial = rand_voices(rng, k, pool);
+    let mut cur = initial.clone();
+    let nedits = 1 + rng.below(4);
+    let mut edits = vec![];
+    for j in 0..nedits {
+        // dense early swap times (incl. 0) in the first edits of the first cases, random later
+        let at = if j == 0 && idx < 50 { idx % 25 } else if rng.chance(1, 2) { rng.below(12) } else { rng.below(if args.thorough() { 400 } else { 80 }) };
+        if rng.chance(1, 5) {
+            edits.push(Edit::Broken { at, kind: rng.below(4) as u8 });
+        } else {
+            let next = edit_voices(rng, &cur, pool);
+            cur = next.clone();
+            edits.push(Edit::Swap { at, voices: next });
+        }
+    }
+    Case { initial, edits, tail: 6 + rng.below(20), pad: None }
+}
+
+pub fn meta(args: &Args) -> Value {
+    json!({
+        "level": "exploration",
+        "rule": "dsp returns one channel per voice; voices are drawn (each template at most once, canonical order) from 6 templates with pairwise unmatchable state shapes Feed(1) / Mem / Delay(3) / Delay(5) / nested Feed(2) / nested (Mem, Delay(3)); histories of 1-4 edits (insert / delete / replace a voice, nest a voice one call deeper, change a constant, try to compile a broken text) at swap times 0..24 and random later ones, on both runtimes through the same swap path as C06. After every sample each channel is compared bitwise with an independent Rust model of its template whose state is kept across a swap exactly when the template (and nesting) is present before and after, and reset to zero otherwise; a failed compile must change nothing. Before the first swap the models are validated against the uninterrupted run (else the case is inconclusive). Non-trivial = at least one swap happened; distinct = hash of the history.",
+        "assumptions": ["templates are used at most once per program, so 'exchange among identically shaped siblings' cannot blur the expectation", "survivors are never reordered by the generated edits"],
+        "floor": {"quick": 50, "thorough": 2000},
+        "case_timeout_s": 60,
+        "hang_is_violation": false,
+        "budget": args.cases(1500, 20000),
+    })
+}
+
+pub fn run(args: &Args, out: &mut Out) {
+    let total = args.cases(1500, 20000);
+    let exec = exec_with(args);
+    drive(args, out, total, |idx, rng| Some(gen_case(args, idx, rng)), exec);
+}
+
+pub fn replay(args: &Args, out: &mut Out, case: &Value) {
+    let mut c = case.clone();
+    if let Some(o) = c.as_object_mut() {
+        o.remove("src_initial");
+    }
+    let exec = exec_with(args);
+    replay_one::<Case>(out, &c, exec);
+}
